@@ -17,7 +17,7 @@ var (
 // IATBatch returns one valid, created IAT batch: every entry has the seven
 // mandatory addenda 10-16, up to two Addenda17 and up to five Addenda18
 // (both bounded by MaxAddenda), and an Addenda99 when the category is Return.
-// IAT notifications of change (IATCOR) are not generated.
+// IAT notifications of change (IATCOR) are generated under Opts.IATCorrections only.
 func IATBatch(r *Rand, o Opts) (ach.IATBatch, error) {
 	o.SECs = []string{ach.IAT}
 	x := newG(r, o)
@@ -49,6 +49,10 @@ func (x *g) iatBatchHeader(p plan, id string) *ach.IATBatchHeader {
 	bh.ISODestinationCountryCode = Pick(x.r, isoCountries)
 	bh.OriginatorIdentification = x.text(10, latin)
 	bh.StandardEntryClassCode = ach.IAT
+	if p.cat == ach.CategoryNOC {
+		bh.IATIndicator = ach.IATCOR
+		bh.StandardEntryClassCode = ach.COR
+	}
 	bh.CompanyEntryDescription = x.words(10, true, "TRADEPAYMT", "PAYROLL", "REMIT")
 	bh.ISOOriginatingCurrencyCode = Pick(x.r, isoCurrencies)
 	bh.ISODestinationCurrencyCode = Pick(x.r, isoCurrencies)
@@ -191,7 +195,15 @@ func (x *g) iatEntry(p plan, credit bool) *ach.IATEntryDetail {
 		e.AddAddenda18(a)
 		e.AddendaRecords++
 	}
-	if !forward {
+	if p.cat == ach.CategoryNOC {
+		a := ach.NewAddenda98()
+		a.ChangeCode = Pick(x.r, plainChangeCodes)
+		a.OriginalTrace = x.trace15()
+		a.OriginalDFI = x.aba8()
+		a.CorrectedData = x.correctedData(a.ChangeCode)
+		e.Addenda98 = a
+		e.AddendaRecords++
+	} else if !forward {
 		a := x.addenda99()
 		// IAT returns carry the payment amount in the first 10 columns of the
 		// addenda information.
